@@ -34,6 +34,35 @@ func Find(dir string, autoSync bool) ([]Segment, error) {
 	return segments, nil
 }
 
+// RemoveSuperseded removes the segments that a rewrite with a later start has replaced.
+//
+// A delete that drops the first messages of a segment moves the rewritten files in under
+// the name of their new first offset and only then removes the old files. A crash in
+// between leaves both: the old segment holds offsets that belong to the next one. The
+// rewrite is complete at that point, so the old files are what is left to remove.
+func RemoveSuperseded(segments []Segment, params index.Params) ([]Segment, error) {
+	var kept = make([]Segment, 0, len(segments))
+	for i, seg := range segments {
+		if i+1 < len(segments) {
+			last, ok, err := seg.lastOffset(params)
+			if err != nil {
+				return nil, fmt.Errorf("superseded %d: %w", seg.Offset, err)
+			}
+			if ok && last >= segments[i+1].Offset {
+				if err := seg.Remove(); err != nil {
+					return nil, fmt.Errorf("superseded %d: %w", seg.Offset, err)
+				}
+				if err := seg.syncDir(); err != nil {
+					return nil, fmt.Errorf("superseded %d sync dir: %w", seg.Offset, err)
+				}
+				continue
+			}
+		}
+		kept = append(kept, seg)
+	}
+	return kept, nil
+}
+
 func StatDir(dir string, params index.Params) (Stats, error) {
 	segments, err := Find(dir, false) // no need to autoSync for find
 	switch {
@@ -86,6 +115,10 @@ func RecoverDir(dir string, params index.Params) error {
 	case len(segments) == 0:
 		return nil
 	default:
+		segments, err := RemoveSuperseded(segments, params)
+		if err != nil {
+			return fmt.Errorf("recover: %w", err)
+		}
 		seg := segments[len(segments)-1]
 		if err := seg.Recover(params); err != nil {
 			return fmt.Errorf("recover %d: %w", seg.Offset, err)
